@@ -797,6 +797,179 @@ func symEvalKeyed(fn *ssa.Function, from ssa.Instruction, field string, env map[
 	return x, ok
 }
 
+// ---- SORT-FLAG and LIMIT-AGREE (added after a blind second seed round missed both) -------------------------
+
+// ruleSortFlag: WriteIndex/WriteTo sort only when the sorted flag is clear, so
+// every assignment in Add to a container that sort() orders – a new bin, the
+// linear index – has to clear the flag on every path. (Appending a chunk to an
+// existing bin is exempt: chunks arrive in file order.)
+func ruleSortFlag(c *Ctx, r *Rep, tier string) {
+	rule := "SORT-FLAG"
+	for _, f := range []struct {
+		pkg, flag string
+		conts   []string
+	}{{"internal", "IsSorted", []string{"Bins", "Intervals"}}, {"csi", "isSorted", []string{"bins"}}} {
+		fn := c.Func(f.pkg, "(*Index).Add")
+		isFlagClear := func(ins ssa.Instruction) bool {
+			st, ok := ins.(*ssa.Store)
+			if !ok {
+				return false
+			}
+			fa, ok := st.Addr.(*ssa.FieldAddr)
+			if !ok || fieldVarOfAddr(fa).Name() != f.flag {
+				return false
+			}
+			k, isK := st.Val.(*ssa.Const)
+			return isK && k.Value != nil && k.Value.String() == "false"
+		}
+		n := 0
+		allInstrs(fn, func(ins ssa.Instruction) {
+			st, ok := ins.(*ssa.Store)
+			if !ok {
+				return
+			}
+			fa, ok := st.Addr.(*ssa.FieldAddr)
+			if !ok {
+				return
+			}
+			name := fieldVarOfAddr(fa).Name()
+			hit := false
+			for _, cn := range f.conts {
+				if name == cn {
+					hit = true
+				}
+			}
+			if !hit {
+				return
+			}
+			n++
+			r.Instance(rule, 1)
+			key := fmt.Sprintf("%s.(*Index).Add#%s~%d", f.pkg, name, n)
+			// the flag is cleared before (dominating) or on every path after
+			ok = false
+			allInstrs(fn, func(x ssa.Instruction) {
+				if isFlagClear(x) && instrDominates(x, st) {
+					ok = true
+				}
+			})
+			if !ok {
+				if _, leak := pathTo(locOf(st), func(x ssa.Instruction) bool {
+					ret, isRet := x.(*ssa.Return)
+					return isRet && len(ret.Results) == 1 && isNilConst(ret.Results[0])
+				}, isFlagClear, nil); !leak {
+					ok = true
+				}
+			}
+			if !ok && (name == "Bins" || name == "bins") {
+				// order-aware variant: the flag is cleared exactly when the new bin's
+				// number is below one already held (appending a higher number keeps
+				// the bins in order) – accepted without checking which bin it is
+				// compared with
+				allInstrs(fn, func(x ssa.Instruction) {
+					if !isFlagClear(x) {
+						return
+					}
+					for _, b := range fn.Blocks {
+						iff := ifOf(b)
+						if iff == nil {
+							continue
+						}
+						bo, isBo := iff.Cond.(*ssa.BinOp)
+						if !isBo || (bo.Op != token.LSS && bo.Op != token.GTR) {
+							continue
+						}
+						kx, ky := symKey(bo.X), symKey(bo.Y)
+						if (strings.HasSuffix(kx, "in") && strings.HasSuffix(strings.ToLower(ky), ".bin")) || (strings.HasSuffix(ky, "in") && strings.HasSuffix(strings.ToLower(kx), ".bin")) {
+							if dominatedByEdge(fn, b, 0, x.Block()) {
+								ok = true
+							}
+						}
+					}
+				})
+			}
+			r.Check(ok, rule, key, c.Pos(st.Pos()), "the sorted flag is cleared on every path through this assignment", fmt.Sprintf("Add assigns %s, which sort() orders, on a path that leaves %s set: the next write does not sort, the reader does, and the re-read index writes different bytes (and answers tile queries differently)", name, f.flag))
+		})
+		if n == 0 {
+			r.Instance(rule, 1)
+			r.Fail(rule, f.pkg+".(*Index).Add#containers", c.Pos(fn.Pos()), "no assignment of a sorted container found in Add")
+		}
+		// and sort() sets it, after sorting
+		r.Instance(rule, 1)
+		sf := c.Func(f.pkg, "(*Index).sort")
+		set := false
+		allInstrs(sf, func(ins ssa.Instruction) {
+			if st, ok := ins.(*ssa.Store); ok {
+				if fa, ok := st.Addr.(*ssa.FieldAddr); ok && fieldVarOfAddr(fa).Name() == f.flag {
+					if k, isK := st.Val.(*ssa.Const); isK && k.Value != nil && k.Value.String() == "true" {
+						set = true
+					}
+				}
+			}
+		})
+		r.Check(set, rule, f.pkg+".(*Index).sort#sets-flag", c.Pos(sf.Pos()), "sort() sets the flag", "sort() never sets the sorted flag")
+	}
+}
+
+// typedKey: like symKey, with the type each arithmetic step is computed in.
+func typedKey(v ssa.Value, depth int) string {
+	if depth > 12 {
+		return "…"
+	}
+	switch x := v.(type) {
+	case *ssa.BinOp:
+		return "(" + typedKey(x.X, depth+1) + x.Op.String() + typedKey(x.Y, depth+1) + "):" + types.TypeString(x.Type(), func(*types.Package) string { return "" })
+	case *ssa.Convert:
+		return types.TypeString(x.Type(), func(*types.Package) string { return "" }) + "(" + typedKey(x.X, depth+1) + ")"
+	case *ssa.Const:
+		if k, ok := constInt(x); ok {
+			return fmt.Sprint(k)
+		}
+	}
+	return symKey(v)
+}
+
+// ruleLimitAgree: the CSI bin limit (from which the pseudo-bin number and the
+// bin-count check derive) is computed by the same expression, in the same
+// integer types, by the writer and by the reader – it overflows uint32 for
+// depth ≥ 10, and the two sides must overflow alike.
+func ruleLimitAgree(c *Ctx, r *Rep, tier string) {
+	rule := "LIMIT-AGREE"
+	argOf := func(fn *ssa.Function, callee string) ssa.Value {
+		var v ssa.Value
+		allInstrs(fn, func(ins ssa.Instruction) {
+			if call, ok := ins.(*ssa.Call); ok {
+				if g := staticCallee(&call.Call); g != nil && g.Name() == callee {
+					v = call.Call.Args[len(call.Call.Args)-1]
+				}
+			}
+		})
+		return v
+	}
+	w := argOf(c.Func("csi", "WriteTo"), "writeIndices")
+	rd := argOf(c.Func("csi", "ReadFrom"), "readIndices")
+	r.Instance(rule, 1)
+	why := ""
+	if w == nil || rd == nil {
+		why = "the bin limit handed to writeIndices/readIndices was not found"
+	} else if typedKey(w, 0) != typedKey(rd, 0) {
+		why = fmt.Sprintf("the writer computes the bin limit as %s, the reader as %s: where they differ (overflow at depth ≥ 10) the reader does not recognise the writer's pseudo-bin", typedKey(w, 0), typedKey(rd, 0))
+	}
+	r.Check(why == "", rule, "csi.WriteTo/ReadFrom#bin-limit", c.Pos(c.Func("csi", "WriteTo").Pos()), "same expression and integer types on both sides", why)
+	// the pseudo-bin number derived from it
+	r.Instance(rule, 1)
+	find := func(fn *ssa.Function) string {
+		out := ""
+		allInstrs(fn, func(ins ssa.Instruction) {
+			if bo, ok := ins.(*ssa.BinOp); ok && bo.Op == token.ADD && symKey(bo.X) == "binLimit" {
+				out = typedKey(bo, 0)
+			}
+		})
+		return out
+	}
+	a, b := find(c.Func("csi", "writeStats")), find(c.Func("csi", "readBins"))
+	r.Check(a != "" && a == b, rule, "csi.writeStats/readBins#pseudo-bin-number", c.Pos(c.Func("csi", "writeStats").Pos()), "pseudo-bin number = "+a+" on both sides", fmt.Sprintf("the pseudo-bin number is %q for the writer and %q for the reader", a, b))
+}
+
 // ---- PATH-SORT-BEFORE-WRITE --------------------------------------------------------------------------------
 
 func ruleSortBeforeWrite(c *Ctx, r *Rep, tier string) {
@@ -1035,6 +1208,8 @@ func init() {
 			{Name: "ELEM-COVER", What: "linear index: every indexed access inside nested loops uses the sum of the loop counters", Floor: 2, Run: ruleElemCover},
 			{Name: "FLAG-TABIX", What: "tabix format word: (Format, ZeroBased) → word → (Format, ZeroBased) is the identity for all presets", Floor: 1, Run: ruleFlagTabix},
 			{Name: "PATH-SORT-BEFORE-WRITE", What: "writers sort before the first byte; sort() orders bins and chunks; readers re-establish the same order", Floor: 8, Run: ruleSortBeforeWrite},
+			{Name: "SORT-FLAG", What: "Add clears the sorted flag on every path that assigns a container sort() orders (new bin, linear index); sort() sets it (added after a blind second seed round – which also exposed the same defect in the unchanged tree)", Floor: 5, Run: ruleSortFlag},
+			{Name: "LIMIT-AGREE", What: "CSI bin limit and pseudo-bin number: same expression in the same integer types in writer and reader", Floor: 2, Run: ruleLimitAgree},
 			{Name: "STATS-ADD", What: "Add increments exactly one of mapped/unmapped/unplaced per accepted record, selected by its arguments; tabix names follow references", Floor: 4, Run: ruleStatsAdd},
 			{Name: "BIT-VOFFSET", What: "vOffset/makeOffset are inverse (bit domain)", Floor: 6, Run: ruleVOffset},
 		},
